@@ -79,7 +79,9 @@ KnownPids(T) == UNION {ToSet(Schemas[T][i].pids) : i \in DOMAIN Schemas[T]}
 (* foreign parameters: unknown standard ids (must-understand bit 0x4000 clear) and vendor-specific ones (>= 0x8000);
    where: 0 = in front, 1 = in the middle, 2 = just before the sentinel *)
 Fp(w, pid, len) == [where |-> w, pid |-> pid, len |-> len]
-ForeignCases == { <<>>, << Fp(0, 32769, 4) >>, << Fp(2, 16382, 0) >>, << Fp(1, 15000, 20), Fp(1, 49151, 8) >>, << Fp(0, 32783, 44), Fp(2, 45, 12) >> }
+\* (pid 0 is PID_PAD: its value is filler of any content, to be skipped like the value of an unknown parameter)
+ForeignCases == { <<>>, << Fp(0, 32769, 4) >>, << Fp(2, 16382, 0) >>, << Fp(1, 15000, 20), Fp(1, 49151, 8) >>, << Fp(0, 32783, 44), Fp(2, 45, 12) >>,
+                  << Fp(1, 0, 8) >>, << Fp(0, 0, 4), Fp(2, 0, 12) >> }
 
 -----------------------------------------------------------------------------
 (* abstract codec: a serialised list is a sequence of <<pid, field, what>> *)
